@@ -16,7 +16,7 @@ for D in ${SEEDS:-/verif/seeded/C*-*}; do
   S=$(basename $D)
   [ -f $D/patch.diff ] || continue
   OUT=$D/confirm.txt
-  cd $WT && git checkout -q -- . && git clean -fdq -- pkg apis cmd
+  cd $WT && git reset -q --hard && git clean -fdq -- pkg apis cmd
   DEMO=$(cat $D/demo_path.txt 2>/dev/null | tr -d '\n ')
   TESTF=$(ls $D/zz_seed_*_test.go 2>/dev/null | head -1)
   PKG=./$(dirname $DEMO)
@@ -25,11 +25,11 @@ for D in ${SEEDS:-/verif/seeded/C*-*}; do
   echo "seed $S  head $(git -C /repo log -1 --format=%h)  pkg $PKG  tests $NAME"
   if git apply --check $D/patch.diff 2>/dev/null; then git apply $D/patch.diff; echo "apply: clean";
   elif git apply --3way $D/patch.diff >/dev/null 2>&1 && ! grep -rl '^<<<<<<<' $(git diff --name-only) >/dev/null 2>&1; then git reset -q; echo "apply: 3-way";
-  else echo "apply: FAILED (conflicts with a later fix)"; git checkout -q -- .; echo "RESULT $S not-applicable-on-head"; continue; fi
+  else echo "apply: FAILED (conflicts with a later fix)"; git reset -q --hard; echo "RESULT $S not-applicable-on-head"; continue; fi
   if go test -mod=mod -vet=off -count=1 $OV $PKG > /tmp/wt/confirm_existing.log 2>&1; then echo "existing tests with patch: PASS"; E=ok; else echo "existing tests with patch: FAIL"; tail -5 /tmp/wt/confirm_existing.log; E=bad; fi
   cp $TESTF $WT/$DEMO
   if go test -mod=mod -vet=off -count=1 $OV -run "^($NAME)\$" $PKG > /tmp/wt/confirm_demo1.log 2>&1; then echo "demo with patch: PASS (unexpected)"; P=bad; else echo "demo with patch: FAIL (expected)"; grep -m3 -E "^\s+--- FAIL|FAIL:|panic" /tmp/wt/confirm_demo1.log; P=ok; fi
-  git checkout -q -- .
+  git reset -q --hard
   if go test -mod=mod -vet=off -count=1 $OV -run "^($NAME)\$" $PKG > /tmp/wt/confirm_demo2.log 2>&1; then echo "demo without patch: PASS (expected)"; C=ok; else echo "demo without patch: FAIL (unexpected)"; tail -8 /tmp/wt/confirm_demo2.log; C=bad; fi
   rm -f $WT/$DEMO
   if [ $E = ok ] && [ $P = ok ] && [ $C = ok ]; then echo "RESULT $S confirmed"; else echo "RESULT $S NOT-confirmed existing=$E demo_with=$P demo_without=$C"; fi
